@@ -56,6 +56,13 @@ KILL = [
      'all(b.stereo is None for b in (lbond, rbond))', '(lbond.stereo == rbond.stereo)', 'ring-stereo-both-ends'),
     ('atom-spelling-drops-H0', ['C10'], 'selfies/utils/smiles_utils.py::atom_to_smiles', 'selfies/utils/smiles_utils.py',
      'builder.append("H0")', 'pass', 'C10:standard-atom-spelling'),
+    ('modernize-skips-legacy-table', ['C18'], 'selfies/compatibility.py::modernize_symbol', 'selfies/compatibility.py',
+     'return _SYMBOL_UPDATE_TABLE[symbol]', 'return symbol', 'C18:legacy-branch-and-ring-names'),
+    ('modernize-bond-prefix-moved', ['C18'], 'selfies/compatibility.py::modernize_symbol', 'selfies/compatibility.py',
+     'symbol = "[{}{}]".format(bond_char, atom_symbol)', 'symbol = "[{}{}]".format(atom_symbol, bond_char)',
+     'C18:expl-atoms-keep-their-bond-prefix'),
+    ('modernize-touches-modern-symbols', ['C18'], 'selfies/compatibility.py::modernize_symbol', 'selfies/compatibility.py',
+     'if symbol[-5:] == "expl]":', 'if symbol[-1:] == "]":', 'C18:modern-symbols-untouched'),
     ('atom-cache-stores-none', ['C08', 'C11'], 'selfies/grammar_rules.py::process_atom_symbol', 'selfies/grammar_rules.py',
      '''        if output is None:
             return None
